@@ -32,6 +32,8 @@ fn scheme() -> Scheme {
     b.add_optional_field("ua", Type::Bytes).unwrap();
     b.add_field("cookies", Type::Array(Type::Bytes.into())).unwrap();
     b.add_field("headers", Type::Map(Type::Bytes.into())).unwrap();
+    b.add_field("ip", Type::Ip).unwrap();
+    b.add_field("ssl", Type::Bool).unwrap();
     b.add_function(
         "lower",
         SimpleFunctionDefinition {
@@ -65,6 +67,11 @@ const FILTERS: &[&str] = &[
     r#"any(cookies[*] contains "two") and all(lower(cookies[*])[*] matches "^[a-z]+$")"#,
     r#"any(join(cookies[*], lower(host))[*] == "TWOexample.com")"#,
     r#"headers["k"] matches "v+" xor port in {80 443 8000..9000}"#,
+    // literal sets and plain comparisons of every primitive (whatever they are compiled into is built in the threads)
+    r#"host in {"example.com" "other.org"} or ua in {"curl" "Mozilla/5.0"}"#,
+    r#"any(cookies[*] in {"TWO" "x"}) and lower(host) in {"example.com" "example.org"}"#,
+    r#"ip in {10.0.0.0/8 ::1} or ip == 192.168.0.1 or host == "EXAMPLE.org""#,
+    r#"port >= 22 and port < 1000 and not ssl"#,
 ];
 
 fn ctx(scheme: &Scheme, variant: usize) -> ExecutionContext<'static> {
@@ -76,6 +83,9 @@ fn ctx(scheme: &Scheme, variant: usize) -> ExecutionContext<'static> {
         c.set_field_value(scheme.get_field("ua").unwrap(), "Mozilla/5.0").unwrap();
     }
     c.set_field_value(scheme.get_field("cookies").unwrap(), Array::from_iter(["one", "TWO", "three"])).unwrap();
+    let ip: std::net::IpAddr = if variant % 2 == 0 { "10.1.2.3".parse().unwrap() } else { "::1".parse().unwrap() };
+    c.set_field_value(scheme.get_field("ip").unwrap(), ip).unwrap();
+    c.set_field_value(scheme.get_field("ssl").unwrap(), variant % 3 == 0).unwrap();
     let mut m = wirefilter::TypedMap::new();
     m.insert(b"k".to_vec().into(), "vvv");
     let m: Map<'static> = m.into();
